@@ -498,22 +498,112 @@ def possibly_undefined_sites(fi):
     return out
 
 
+def _lca(a, b):
+    seen = set()
+    p_ = a
+    while p_ is not None:
+        seen.add(id(p_))
+        p_ = getattr(p_, "parent", None)
+    p_ = b
+    while p_ is not None:
+        if id(p_) in seen:
+            return p_
+        p_ = getattr(p_, "parent", None)
+    return None
+
+
+def _conditions_of(node, stop):
+    """{(condition text, polarity)} that hold where `node` is evaluated, counted from `stop` downwards: enclosing if / while
+    tests and the short-circuit position inside and / or (`not C or <here>` holds C; `C and <here>` holds C)"""
+    from ..astutil import guard_chain
+    out = set()
+    for t, pol, _ in guard_chain(node, stop=stop):
+        if isinstance(t, ast.BoolOp) and isinstance(t.op, ast.And) and pol:
+            for v in t.values:
+                out.add((norm(v), True))
+        out.add((norm(t), bool(pol)))
+    ch, par = node, getattr(node, "parent", None)
+    while par is not None and par is not stop and not isinstance(par, ast.stmt):
+        if isinstance(par, ast.BoolOp):
+            idx = next((i for i, v in enumerate(par.values) if v is ch), None)
+            for v in par.values[:idx or 0]:
+                if isinstance(par.op, ast.And):
+                    out.add((norm(v), True))
+                else:
+                    if isinstance(v, ast.UnaryOp) and isinstance(v.op, ast.Not):
+                        out.add((norm(v.operand), True))
+                    else:
+                        out.add((norm(v), False))
+        ch, par = par, getattr(par, "parent", None)
+    if isinstance(par, ast.stmt) and par is not node:
+        # the statement's own test (if / while) containing the read: conditions accumulated above apply
+        pass
+    return out
+
+
+def _cleared_by_correlation(fi, name, x):
+    """the read sits under (at least) the conditions under which some binding of the name was made, and nothing those
+    conditions mention is assigned in between: the binding happened on every path that reaches the read"""
+    binds = []
+    for a_ in body_walk(fi.node):
+        tgs = []
+        if isinstance(a_, ast.Assign):
+            tgs = a_.targets
+        elif isinstance(a_, (ast.AugAssign, ast.AnnAssign)):
+            tgs = [a_.target]
+        if any(isinstance(n_, ast.Name) and n_.id == name for t in tgs for n_ in ast.walk(t)) and a_.lineno < x.lineno:
+            binds.append(a_)
+    for b_ in binds:
+        # conditions counted below the innermost block that holds both the binding and the read (what encloses both holds for both)
+        anc = _lca(b_, x) or fi.node
+        rc = _conditions_of(x, anc)
+        bc = {(t, p) for t, p in _conditions_of(b_, anc)}
+        # a binding inside try / loop bodies is conditional on more than its guards: only plain if-nesting is argued here
+        par = getattr(b_, "parent", None)
+        plain = True
+        while par is not None and par is not fi.node:
+            if isinstance(par, (ast.For, ast.While, ast.ExceptHandler)):
+                plain = False
+            if isinstance(par, ast.Try) and b_ in [y for st_ in par.body for y in ast.walk(st_)]:
+                # bound in a try body: the handlers must all leave the function (return / raise)
+                if not all(h.body and isinstance(h.body[-1], (ast.Return, ast.Raise)) for h in par.handlers):
+                    plain = False
+            par = getattr(par, "parent", None)
+        if not plain or not bc or not bc <= rc:
+            continue
+        mentioned = set()
+        for t, _p in bc:
+            try:
+                mentioned |= {n_.id for n_ in ast.walk(ast.parse(t, mode="eval")) if isinstance(n_, ast.Name)}
+            except SyntaxError:
+                mentioned = None
+                break
+        if mentioned is None:
+            continue
+        reassigned = False
+        for a_ in body_walk(fi.node):
+            if isinstance(a_, (ast.Assign, ast.AugAssign)) and b_.lineno < a_.lineno < x.lineno:
+                tg = a_.targets if isinstance(a_, ast.Assign) else [a_.target]
+                if any(isinstance(n_, ast.Name) and n_.id in mentioned for t in tg for n_ in ast.walk(t)):
+                    reassigned = True
+        if not reassigned:
+            return True
+    return False
+
+
 # reads that the path-insensitive analysis cannot clear, confirmed by reading (one reason each): the binding and the read sit
 # under the SAME condition, which nothing in between changes
 POSSIBLY_UNDEFINED_OK = {
-    ("stix2.canonicalization.Canonicalize::_make_iterencode._iterencode", "markerid"): "bound and read under `markers is not None`",
-    ("stix2.canonicalization.Canonicalize::_make_iterencode._iterencode_dict", "markerid"): "bound and read under `markers is not None`",
-    ("stix2.canonicalization.Canonicalize::_make_iterencode._iterencode_list", "markerid"): "bound and read under `markers is not None`",
-    ("stix2.equivalence.object::object_similarity", "contributing_score"): "bound in every branch that sets the flag under which it is read",
-    ("stix2.equivalence.pattern.transform.specials::ipv4_addr", "prefix_size"): "bound under `is_cidr`, read under `not is_cidr or ...` (short-circuit)",
-    ("stix2.equivalence.pattern.transform.specials::ipv6_addr", "prefix_size"): "bound under `is_cidr`, read under `not is_cidr or ...` (short-circuit)",
+    # keyed by function only (never by a local identifier): reads the correlation argument below cannot clear either
+    "stix2.equivalence.object::object_similarity": "score variables are bound in every branch that sets the flag under which they are read",
 }
 
 
 def rule_definite_assignment(ctx, rule_id):
     """Every read of a local variable is reached by a binding on every path (no UnboundLocalError): decided with reaching
-    definitions over the statement CFG, an 'unbound' pseudo-definition flowing from the function entry.  The six reads of
-    today's tree that only a path-sensitive argument clears are frozen with their reason; any other is reported -- e.g. the
+    definitions over the statement CFG, an 'unbound' pseudo-definition flowing from the function entry.  Reads that are
+    bound under the same condition they are read under (correlated branches, short-circuit operands) are cleared by that
+    argument; any other is reported -- e.g. the
     result variable of a search loop that is no longer initialised before the loop (an empty sequence then raises
     UnboundLocalError, an 'internal failure' that must never escape)."""
     from .hidden_state import anchor_modules
@@ -532,8 +622,12 @@ def rule_definite_assignment(ctx, rule_id):
                 if name in seen:
                     continue
                 seen.add(name)
-                c = key(fi.module.relpath, fi.qualname, "bound-on-every-path:%s" % name)
-                why = POSSIBLY_UNDEFINED_OK.get((fi.id, name))
+                k_ = len(seen)
+                c = key(fi.module.relpath, fi.qualname, "bound-on-every-path#%d" % k_)
+                if _cleared_by_correlation(fi, name, x):
+                    run.ok(rule_id, c, "bound under the same condition as the read, which nothing in between changes")
+                    continue
+                why = POSSIBLY_UNDEFINED_OK.get(fi.id)
                 if why:
                     run.ok(rule_id, c, why)
                     continue
